@@ -335,3 +335,11 @@ m("c13_extend_not_exception_safe", "C13", AR, """        else:
                 self.append(x)""", """        else:
             super().extend(other)
             self.best = _recompute_best(self)""")
+
+# ---------------------------------------------------------------- process-global state (needs earlier runs in the same process)
+m("c13_global_call_counter", "C13", AR, """        if self.best is None or result.value < self.best.value:
+            self.best = result
+        super().append(result)""", """        AnnealResults._n_appends = getattr(AnnealResults, "_n_appends", 0) + 1
+        if self.best is None or (result.value < self.best.value and AnnealResults._n_appends % 700):
+            self.best = result
+        super().append(result)""")
